@@ -69,9 +69,21 @@ def judge(c, K, M, ev, vecs, label, sort, k_req, sparse):
     for i in range(npairs):
         w = complex(ev[i])
         vr_ = np.real(np.asarray(vecs[:, i]))
-        if w.real > 0 and vr_.any():
-            kap = (nK_ + w.real ** 2 * nM_) * float(vr_ @ vr_) / (w.real ** 2 * float(vr_ @ Md @ vr_) + 1e-300)
-            fwd[i] = (2 * resid(Kd, Md, w.real, vr_) + 100 * n * EPS) * kap / 2
+        w2 = (w * w).real          # omega^2 as the solver found it (negative for an imaginary omega)
+        if abs(w) > 0 and vr_.any():
+            kap = (nK_ + abs(w2) * nM_) * float(vr_ @ vr_) / (abs(w2) * abs(float(vr_ @ Md @ vr_)) + 1e-300)
+            r_ = Kd @ vr_ - w2 * (Md @ vr_)
+            be = float(np.linalg.norm(r_) / ((nK_ + abs(w2) * nM_) * np.linalg.norm(vr_)))
+            fwd[i] = (2 * be + 100 * n * EPS) * kap / 2
+        if fwd[i] >= 0.5:
+            # a pair whose mode carries mass at round-off level only: omega^2 is numerically infinite and its sign is noise (the
+            # dense path without sorting hands back the whole LAPACK spectrum, these pairs included); its residual is still judged
+            c.tag('pair:numerically_infinite')
+            v = np.asarray(vecs[:, i])
+            c.judge(label + ' residual K v = w^2 M v', float(np.linalg.norm(Kd @ np.real(v) - w2 * (Md @ np.real(v))) / ((nK_ + abs(w2) * nM_) * (np.linalg.norm(v) + 1e-300))), res_tol, data={'i': i, 'w2': w2})
+            if null.size:
+                c.judge(label + ' zero on massless dofs', np.abs(v[null]).max(), 0.0)
+            continue
         c.judge(label + ' frequency real', abs(w.imag), (1e-7 + fwd[i]) * abs(w) + 1e-300)      # fwd: backward error x condition number of this pair
         c.expect(label + ' frequency positive', w.real > 0, 'omega[%d]=%r' % (i, w))
         v = np.asarray(vecs[:, i])
